@@ -31,6 +31,25 @@ pub open spec fn provide_ok(w: World, pair: Seq<char>, pi: PairInfoRaw, i0: Asse
             && in_whitelist(pi.requirements.whitelist@, sender) && d0.0 >= pi.requirements.first_asset_minimum.0 && d1.0 >= pi.requirements.second_asset_minimum.0
             && mint_msg(lp, lp, Uint128(1), msgs[k0 + k1]) && mint_msg(lp, recv, Uint128((share.0 - 1) as u128), msgs[k0 + k1 + 1]))
 }
+// the three things a successful provision guarantees, as predicates (restated for the ProvideLiquidity arm of `execute`)
+pub open spec fn provide_funds_ok(funds: Seq<Coin>, assets: [Asset; 2]) -> bool {
+    forall|j: int| 0 <= j < 2 ==> (#[trigger] assets[j].info matches AssetInfo::NativeToken { denom } ==> assets[j].amount.0 as nat == attached(funds, denom@))
+}
+pub open spec fn provide_mints_ok(s: Storage, w: World, pair: Seq<char>, sender: Seq<char>, receiver: Option<String>, assets: [Asset; 2], msgs: Seq<CosmosMsg>) -> bool {
+    s.pair_info is Some && ({
+        let pi = s.pair_info->Some_0;
+        exists|i0: AssetInfo, i1: AssetInfo, share: Uint128| #![trigger raw_of(i0, pi.asset_infos[0]), raw_of(i1, pi.asset_infos[1]), is_share(share)]
+            raw_of(i0, pi.asset_infos[0]) && raw_of(i1, pi.asset_infos[1]) && is_share(share)
+            && provide_ok(w, pair, pi, i0, i1, human_of(pi.liquidity_token.0@), sender, recv_of(receiver, sender), assets, share, msgs) })
+}
+pub open spec fn provide_slip_ok(s: Storage, w: World, pair: Seq<char>, assets: [Asset; 2], t: Option<Decimal>) -> bool {
+    t is Some ==> s.pair_info is Some && ({
+        let pi = s.pair_info->Some_0;
+        exists|i0: AssetInfo, i1: AssetInfo| #![trigger raw_of(i0, pi.asset_infos[0]), raw_of(i1, pi.asset_infos[1])] raw_of(i0, pi.asset_infos[0]) && raw_of(i1, pi.asset_infos[1])
+            && net_reserve(w, pair, i0, dep_of(assets, i0)) >= 0 && net_reserve(w, pair, i1, dep_of(assets, i1)) >= 0
+            && !slip_rejects(t->Some_0.0 as nat, dep_of(assets, i0).0 as nat, dep_of(assets, i1).0 as nat,
+                  net_reserve(w, pair, i0, dep_of(assets, i0)) as nat, net_reserve(w, pair, i1, dep_of(assets, i1)) as nat) })
+}
 //%fn contracts/halo-pair/src/contract.rs | - | provide_liquidity
 //%%rewrite #1 /for asset in assets\.iter\(\) \{/ => for asset in it: assets.iter() { ## name the loop's ghost iterator
 //%%rewrite #2 /assets\s*\.iter\(\)\s*\.find\(\|a\| ((?s:.*?))\)\s*\.map\(\|a\| ((?s:.*?))\)\s*\.expect\(/ => vmap_opt(vfind2(&assets, |a: &Asset| -> (b: bool) ensures b == a.info.same(&pools[CLOSURE_IDX].info) { \1 }), |a: &Asset| -> (x: Uint128) ensures x == a.amount { \2 }).expect( ## R4: iter().find(..).map(..) over [Asset;2] -> verified helpers vfind2 / vmap_opt; closures annotated with their own (verified) ensures
